@@ -158,7 +158,7 @@ mod proofs {
         std::mem::forget(dec); std::mem::forget(ctx);
     }
 
-    // @harness id=C17 tier=thorough unwind=10 timeout=3000 fs=4096
+    // @harness id=C17 tier=deep unwind=10 timeout=3000 fs=4096
     // @desc the lazily grown secret-key-power cache of a shared Decryptor never shrinks and never changes results: a size-2 decryption gives the same plaintext before and after a size-3 decryption grew the cache, and the cache keeps its larger length (the sequential history small; large; small on one shared object)
     // @bounds BFV N=2, q={97}, t=3; all ciphertext residues; secret key s = 1 - X (concrete); one sequential history. Real thread interleavings are outside Kani's model (no threads): only a sequential history is decided here
     // @funcs Decryptor::decrypt, Decryptor::compute_secret_key_array, Decryptor::dot_product_ct_sk_array
